@@ -432,6 +432,30 @@ pub fn run(cfg: &Cfg) -> Report {
     stats.merge(hstats);
     let mut planned = planned.into_inner().unwrap();
     planned.sort_by_key(|(c, _)| *c);
+    // 1b. the hand-written scripts (folds in seq and par position, canon maps, recursive streams, new-scoped
+    // streams): a few random histories of each, always with the systematic fold-lore and bit-flip sweeps
+    if cfg.only_case.is_none() {
+        let n_sched = if cfg.thorough { 6 } else { 1 };
+        for (idx, (name, n_peers, text)) in DIRECTED.iter().enumerate() {
+            let ids = standard_peer_ids(*n_peers);
+            let mut air = text.to_string();
+            for (i, id) in ids.iter().enumerate() {
+                air = air.replace(&format!("@P{i}"), id);
+            }
+            for k in 0..n_sched {
+                let mut rng = Rng::derive(cfg.seed ^ 0xc01d, idx as u64, k);
+                let world = World::new(*n_peers, air.clone(), None, &format!("c01-directed-{}-{idx}-{k}", cfg.seed), 3);
+                let sched = mk_sched(&mut rng);
+                let history = run_random(&world, &mut rng, &sched);
+                let c = Case { world, history, frag: Frag::Stream, has_streams: true, n_calls: 0 };
+                observe(&c, &mut stats);
+                stats.label("directed_scripts", name);
+                let mut out = vec![];
+                plan_from_history(&c, &mut rng, &mut out, per_step, true);
+                planned.extend(out.into_iter().map(|p| (u64::MAX - 1, p)));
+            }
+        }
+    }
     // 2. hostile scripts (own classes: a stack overflow kills the worker)
     let peers = standard_peers(1);
     let me = &peers[0];
@@ -489,6 +513,37 @@ pub fn run(cfg: &Cfg) -> Report {
         m.insert("1".to_string(), (0, result.to_string()));
         input.call_results = CallResultsIn::Map(m);
         planned.push((u64::MAX, Planned { case: exec_case(&input, true, true), label: format!("script:type-confusion-accessor-{label}"), group: "hostile-scripts" }));
+    }
+
+    // error objects of every shape handed to `fail` (and re-raised / read back through %last_error% and :error:)
+    for (label, result) in [
+        ("code-u64max", "{\"error_code\":18446744073709551615,\"message\":\"m\"}"),
+        ("code-above-i64", "{\"error_code\":9223372036854775808,\"message\":\"m\"}"),
+        ("code-i64min", "{\"error_code\":-9223372036854775808,\"message\":\"m\"}"),
+        ("code-float", "{\"error_code\":1.5,\"message\":\"m\"}"),
+        ("code-exp", "{\"error_code\":1e300,\"message\":\"m\"}"),
+        ("code-zero", "{\"error_code\":0,\"message\":\"m\"}"),
+        ("code-string", "{\"error_code\":\"1\",\"message\":\"m\"}"),
+        ("code-missing", "{\"message\":\"m\"}"),
+        ("message-number", "{\"error_code\":1,\"message\":2}"),
+        ("message-missing", "{\"error_code\":1}"),
+        ("extra-fields", "{\"error_code\":7,\"message\":\"m\",\"instruction\":1,\"peer_id\":[1]}"),
+        ("not-object", "[1,\"m\"]"),
+        ("null", "null"),
+        ("nested-deep", "{\"error_code\":7,\"message\":\"m\",\"d\":[[[[[[[[[[[[[[[[[[[[[[[[[[[[[[[[1]]]]]]]]]]]]]]]]]]]]]]]]]]]]]]]]}"),
+    ] {
+        let script = format!(
+            "(seq (call \"{0}\" (\"s\" \"eo\") [] e) (seq (xor (fail e) (seq (xor (call \"{0}\" (\"s\" \"g1\") [%last_error% :error: %last_error%.$.error_code :error:.$.message]) (null)) (xor (fail %last_error%) (xor (fail :error:) (null))))) (xor (par (fail e) (fail e)) (xor (match e.$.error_code e.$.error_code (fail e)) (null)))))",
+            me.id
+        );
+        let w = World::new(1, script, None, "failobj", 3);
+        let first = invoke(&w.input(me));
+        let mut input = w.input(me);
+        input.prev = first.data.clone();
+        let mut m = std::collections::BTreeMap::new();
+        m.insert("1".to_string(), (0, result.to_string()));
+        input.call_results = CallResultsIn::Map(m);
+        planned.push((u64::MAX, Planned { case: exec_case(&input, true, true), label: format!("script:fail-object-{label}"), group: "hostile-scripts" }));
     }
 
     let unencodable = planned.iter().filter(|(_, p)| p.group == "unencodable").count();
